@@ -1,10 +1,174 @@
 import Dmn.Model.Sexp
+import Dmn.Model.Calendar
+import Dmn.Model.Temporal
 
-/-! Driver handler for C15 — not implemented yet. -/
+/-! Driver handler for C15. Requests (all numbers are integers):
+
+* `(c15 date y m d)` — validity, weekday, day number: implementation model and calendar.
+* `(c15 fromnum (yc ye) (mc me) (dc de))` — `date(y, m, d)` from decimals `c·10^e`.
+* `(c15 dcmp y1 m1 d1 y2 m2 d2)` — `<`, `<=`, `>`, `>=`, `=` on dates.
+* `(c15 cmp DT o DT o)` / `(c15 sub DT o DT o)` — date-times `(y m d h mi s ns zone)` with the
+  oracle offset (`none` or seconds) of each.
+* `(c15 ym y1 m1 d1 y2 m2 d2)` — `years and months duration(from, to)`.
+* `(c15 dtd n)` / `(c15 ymd n)` — duration components.
+* `(c15 prop DT o)` — year … second, time offset, timezone.
+* `(c15 durops kind a b)` — `+`, unary `-`, binary `-`, `=`, `<` on two durations.
+-/
 
 namespace Dmn.Driver.C15
-open Dmn
+open Dmn Dmn.Cal Dmn.Temporal
 
-def handle (_args : List Sexp) : String := "(error not-implemented)"
+def zone? : Sexp → Option Zone
+  | .atom "utc" => some .utc
+  | .atom "local" => some .localZ
+  | .list [.atom "offset", n] => (Sexp.int? n).map .offset
+  | .list [.atom "zone", s] => (Sexp.chars? s).map .zone
+  | _ => none
+
+def dt? : Sexp → Option DateTime
+  | .list [y, m, d, h, mi, s, ns, z] => do
+    let y ← Sexp.int? y
+    let m ← Sexp.nat? m
+    let d ← Sexp.nat? d
+    let h ← Sexp.nat? h
+    let mi ← Sexp.nat? mi
+    let s ← Sexp.nat? s
+    let ns ← Sexp.nat? ns
+    let z ← zone? z
+    pure ⟨⟨y, m, d⟩, ⟨h, mi, s, ns, z⟩⟩
+  | _ => none
+
+def oracle? : Sexp → Option (Option Int)
+  | .atom "none" => some none
+  | x => (Sexp.int? x).map some
+
+def dec? : Sexp → Option Dec
+  | .list [c, e] => do
+    let c ← Sexp.int? c
+    let e ← Sexp.int? e
+    pure ⟨c, e⟩
+  | _ => none
+
+def ordStr : Ord3 → String
+  | .lt => "lt" | .eq => "eq" | .gt => "gt"
+
+def resStr {α : Type} (f : α → String) : Res α → String
+  | .val v => f v
+  | .none => "none"
+  | .panic => "panic"
+
+def optStr {α : Type} (f : α → String) : Option α → String
+  | some v => f v
+  | none => "none"
+
+def b (x : Bool) : String := if x then "true" else "false"
+
+/-- Specification-side offset: explicit offsets and UTC are what is written; named and local
+zones take the oracle value. -/
+def specInstant (dt : DateTime) (o : Option Int) : Option Int :=
+  match resolveOffset o dt.time.z with
+  | some off =>
+    if validDate dt.date.y dt.date.m dt.date.d && isValidTime dt.time.h dt.time.mi dt.time.s then
+      some (instant dt.date.y dt.date.m dt.date.d dt.time.h dt.time.mi dt.time.s dt.time.ns off)
+    else none
+  | none => none
+
+def isIntegral (x : Dec) : Bool :=
+  if x.exp ≥ 0 then true else x.coeff % ((10 : Int) ^ (-x.exp).toNat) == 0
+
+def decInt (x : Dec) : Int :=
+  if x.exp ≥ 0 then x.coeff * (10 : Int) ^ x.exp.toNat else x.coeff / ((10 : Int) ^ (-x.exp).toNat)
+
+def handle (args : List Sexp) : String :=
+  match args with
+  | [.atom "date", y, m, d] =>
+    match Sexp.int? y, Sexp.nat? m, Sexp.nat? d with
+    | some y, some m, some d =>
+      -- `date(y, m, d)` with integral numbers; `lit`: `is_valid_date` alone (the literal route)
+      let vi := (dateFromNumbers ⟨y, 0⟩ ⟨m, 0⟩ ⟨d, 0⟩).isSome
+      let vl := isValidDate y m d
+      let vs := validDate y m d
+      let wi := resStr toString (Date.weekday ⟨y, m, d⟩)
+      let z := daysFromCivil y m d
+      let back := civilFromDays z
+      s!"(((valid {b vi}) (lit {b vl}) (weekday {wi})) ((valid {b vs}) (weekday {Cal.weekday z}) (days {z}) (back {back.1} {back.2.1} {back.2.2})))"
+    | _, _, _ => "(error bad-args)"
+  | [.atom "fromnum", yr, mo, dy] =>
+    match dec? yr, dec? mo, dec? dy with
+    | some yr, some mo, some dy =>
+      let m := match dateFromNumbers yr mo dy with
+        | some d => s!"(date {d.y} {d.m} {d.d})"
+        | none => "null"
+      let sp :=
+        if isIntegral yr && isIntegral mo && isIntegral dy &&
+            validDate (decInt yr) (decInt mo) (decInt dy) && decide (-999999999 ≤ decInt yr) && decide (decInt yr ≤ 999999999) then
+          s!"(date {decInt yr} {decInt mo} {decInt dy})"
+        else "null"
+      s!"({m} {sp})"
+    | _, _, _ => "(error bad-args)"
+  | [.atom "dcmp", y1, m1, d1, y2, m2, d2] =>
+    match Sexp.int? y1, Sexp.nat? m1, Sexp.nat? d1, Sexp.int? y2, Sexp.nat? m2, Sexp.nat? d2 with
+    | some y1, some m1, some d1, some y2, some m2, some d2 =>
+      let a : Date := ⟨y1, m1, d1⟩
+      let c : Date := ⟨y2, m2, d2⟩
+      let za := daysFromCivil y1 m1 d1
+      let zc := daysFromCivil y2 m2 d2
+      s!"(({b (a.lt c)} {b (a.le c)} {b (a.gt c)} {b (a.ge c)} {b (a.eq c)}) ({b (decide (za < zc))} {b (decide (za ≤ zc))} {b (decide (za > zc))} {b (decide (za ≥ zc))} {b (decide (za = zc))}) ({b (dateLt y1 m1 d1 y2 m2 d2)}))"
+    | _, _, _, _, _, _ => "(error bad-args)"
+  | [.atom "cmp", x, ox, y, oy] =>
+    match dt? x, oracle? ox, dt? y, oracle? oy with
+    | some x, some ox, some y, some oy =>
+      let m := resStr ordStr (compare x y ox oy)
+      let sp := match specInstant x ox, specInstant y oy with
+        | some i, some j => if i < j then "lt" else if j < i then "gt" else "eq"
+        | _, _ => "none"
+      s!"({m} {sp})"
+    | _, _, _, _ => "(error bad-args)"
+  | [.atom "sub", x, ox, y, oy] =>
+    match dt? x, oracle? ox, dt? y, oracle? oy with
+    | some x, some ox, some y, some oy =>
+      let m := resStr toString (subtract x y ox oy)
+      let sp := match specInstant x ox, specInstant y oy with
+        | some i, some j => toString (i - j)
+        | _, _ => "none"
+      s!"({m} {sp})"
+    | _, _, _, _ => "(error bad-args)"
+  | [.atom "ym", y1, m1, d1, y2, m2, d2] =>
+    match Sexp.int? y1, Sexp.nat? m1, Sexp.nat? d1, Sexp.int? y2, Sexp.nat? m2, Sexp.nat? d2 with
+    | some y1, some m1, some d1, some y2, some m2, some d2 =>
+      -- from = (y1 m1 d1), to = (y2 m2 d2); the code calls `to.ym_duration(from)`
+      let m := Date.ymDuration ⟨y2, m2, d2⟩ ⟨y1, m1, d1⟩
+      let sp := wholeMonths y1 m1 d1 y2 m2 d2
+      s!"({m} {sp})"
+    | _, _, _, _, _, _ => "(error bad-args)"
+  | [.atom "dtd", n] =>
+    match Sexp.int? n with
+    | some n =>
+      s!"(({dtdDays n} {dtdHours n} {dtdMinutes n} {dtdSeconds n}) ({durDays n} {durHours n} {durMinutes n} {durSeconds n} {durNanos n}))"
+    | none => "(error bad-args)"
+  | [.atom "ymd", n] =>
+    match Sexp.int? n with
+    | some n => s!"(({ymdYears n} {ymdMonths n}) ({Int.tdiv n 12} {Int.tmod n 12}))"
+    | none => "(error bad-args)"
+  | [.atom "prop", x, ox] =>
+    match dt? x, oracle? ox with
+    | some x, some ox =>
+      let off := optStr (fun (n : Int) => toString n) (timeOffsetOf x ox)
+      let tz := match timeZoneOf x with
+        | some n => toString (Sexp.ofChars n)
+        | none => "none"
+      s!"({x.date.y} {x.date.m} {x.date.d} {x.time.h} {x.time.mi} {x.time.s} {off} {tz})"
+    | _, _ => "(error bad-args)"
+  | [.atom "durops", .atom kind, x, y] =>
+    match Sexp.int? x, Sexp.int? y with
+    | some x, some y =>
+      let o := optStr (fun (n : Int) => toString n)
+      let sp := s!"({x + y} {-x} {x - y} {b (decide (x = y))} {b (decide (x < y))})"
+      if kind == "dtd" then
+        s!"(({o (feelAddDtd x y)} {o (feelNegDtd x)} {o (feelSubDtd x y)} {b (decide (x = y))} {b (decide (x < y))}) {sp})"
+      else
+        s!"(({o (feelAddYmd x y)} {o (feelNegYmd x)} none {b (decide (x = y))} {b (decide (x < y))}) {sp})"
+    | _, _ => "(error bad-args)"
+  | _ => "(error bad-request)"
 
 end Dmn.Driver.C15
